@@ -501,11 +501,39 @@ def cli_vector(E, R, argv, expect, api=None, pre_existing=None, file_arg=None):
             txt = json.dumps(got)
             full = w.generate(account=account, interval=interval)
             secrets_ = [v for _, v in hw.leaves(full) if isinstance(v, str) and hw.classify(E, R, v)[0].startswith(("secret", "text"))]
-            E.check(not any(s and s in txt for s in secrets_), "--paranoia output contains none of the secret strings")
+            pub_strings = sorted({v for _, v in hw.leaves(full) if isinstance(v, str) and
+                                  hw.classify(E, R, v)[0] in ("address", "xpub", "path", "sec")}, key=len, reverse=True)
+
+            def _outside_public(text):
+                # a short passphrase such as "m/" or "0" occurs inside public strings by coincidence: occurrences are
+                # looked for in what remains of the text once the public strings of the unfiltered output are taken out
+                for ps in pub_strings:
+                    text = text.replace(ps, "\x00")
+                return text
+            def _keys(o):
+                if isinstance(o, dict):
+                    for k_, v_ in o.items():
+                        yield k_
+                        yield from _keys(v_)
+                elif isinstance(o, (list, tuple)):
+                    for v_ in o:
+                        yield from _keys(v_)
+            known_keys = set(_keys(full))
+            out_strings = [v for _, v in hw.leaves(got) if isinstance(v, str)] + [k_ for k_ in _keys(got) if k_ not in known_keys]
+            txt = "\x01".join(out_strings)
+            E.check(not any(s and s in _outside_public(txt) for s in secrets_), "--paranoia output contains none of the secret strings")
+            # independent projection: the filtered output neither invents nor alters a string, and keeps every public one
+            if got is not None:
+                full_leaves = [v for _, v in hw.leaves(full) if isinstance(v, str)]
+                got_leaves = [v for _, v in hw.leaves(got) if isinstance(v, str)]
+                E.check(all(v in full_leaves for v in got_leaves), "--paranoia: every string of the output occurs, unaltered, in the unfiltered output")
+                public = [v for v in full_leaves if hw.classify(E, R, v)[0] in ("address", "xpub", "path", "sec")]
+                E.check(all(v in got_leaves for v in public), "--paranoia: every path, address, public key and extended public key of the unfiltered output is kept")
             raw = p.stdout + "".join(new.values())
             given = [argv[i + 1] for i, a_ in enumerate(argv[:-1]) if a_ == "--password"] + \
                     [a_.split("=", 1)[1] for a_ in argv if a_.startswith("--password=")] + \
                     [argv[i + 1] for i, a_ in enumerate(argv[:-1]) if a_ in ("from-mnemonic", "from-bip39-seed", "from-entropy-hex", "from-master-xprv")]
+            raw = _outside_public(txt)          # stdout / the file parsed as one JSON document (checked above): its strings are all there is
             E.check(not any(g and g.strip() and g.strip() in raw for g in given) and not any(s and s in raw for s in secrets_),
                     "--paranoia: nothing the command writes (stdout, file) contains the secret or passphrase it was given")
     return "ok"
@@ -609,7 +637,7 @@ def vectors():
     # the network of a wallet built from an extended key is the key's own (testnet key without --testnet, mainnet key with it)
     add(["--interval", "0", "1", "from-master-xprv", TPRV], "ok", api=("xprv", TPRV, {}))
     add(["--testnet", "--interval", "0", "1", "from-master-xprv", XPRV_MAIN], "ok", api=("xprv", XPRV_MAIN, {}))
-    for pw in (" correct horse ", "\u00e9\u212b", "--paranoia", "x" * 300):
+    for pw in (" correct horse ", "\u00e9\u212b", "--paranoia", "x" * 300, "0", "1", "44", "bc1", "m/", "'"):
         pwarg = ["--password=" + pw] if pw.startswith("-") else ["--password", pw]
         for par in ([], ["--paranoia"]):
             add(par + ["--interval", "0", "1", "from-mnemonic", MNEM] + pwarg, "ok", api=("mnemonic", MNEM, {"password": pw}))
